@@ -130,6 +130,10 @@ func hashJoinKey(val TypedValue) string {
 	if b, ok := raw.([]byte); ok {
 		return "blob\x00" + string(b)
 	}
+	// INTEGER and FLOAT compare numerically (Compare): 10 and 10.0 must share a key
+	if f, ok := raw.(float64); ok && f == float64(int64(f)) && f > -9e18 && f < 9e18 {
+		raw = int64(f)
+	}
 	return fmt.Sprintf("%T\x00%v", raw, raw)
 }
 
